@@ -8,6 +8,7 @@ between attempts, identity of the final result / exception.
 from __future__ import annotations
 
 import asyncio
+import copy
 import hashlib
 import itertools
 import json
@@ -241,13 +242,24 @@ class RetryHarness(Harness):
             "on_error": g.pick(TRI),
             "wait": g.pick(WAITS),
             "durations": [g.pick([0, 0, 0.001, 0.3, 2.0]) for _ in range(g.randint(1, 3))],
+            # a race registers one runner object per operation type and every task and client of that type calls it: in 40 % of
+            # the cases the judged invocation is not the first one of its runner object
+            "prior": [self._invocation(g) for _ in range(g.pick([1, 1, 2]))] if g.coin(0.4) else None,
         }
+
+    def _invocation(self, g):
+        weights = [3 if o in TIMEOUTS or o in ("fail", "api-408") else 1 for o in OUTCOMES]
+        return {"script": [OUTCOMES[g.weighted(weights)] for _ in range(g.randint(1, 4))], "retries": g.pick(RETRIES), "until": g.pick([None, None, False]), "on_timeout": g.pick(TRI), "on_error": g.pick(TRI), "wait": g.pick(WAITS)}
 
     def simplify(self, prop, cfg):
         s = cfg["script"]
         for i in range(len(s)):
             c = dict(cfg)
             c["script"] = s[:i] + s[i + 1 :]
+            yield c
+        if cfg.get("prior"):
+            c = dict(cfg)
+            c["prior"] = cfg["prior"][1:] or None
             yield c
         for k in ("retries", "until", "on_timeout", "on_error", "wait"):
             if cfg[k] is not None:
@@ -281,7 +293,8 @@ class RetryHarness(Harness):
         def bad(oracle, key, msg):
             violations.append({"oracle": oracle, "key": f"{oracle}:{key}", "message": msg})
 
-        registered = runner.runner_for(cfg["op"])
+        # every case gets runner objects of its own: state that a runner keeps between invocations must not leak between cases
+        registered = copy.deepcopy(runner.runner_for(cfg["op"]))
         # find the Retry wrapper inside the registered chain
         chain = []
         r = registered
@@ -302,6 +315,23 @@ class RetryHarness(Harness):
 
         clock = VClock()
         loop = VLoop(clock)
+        for inv in cfg.get("prior") or []:
+            # earlier invocations of the same runner object (another task, another client); only the last one is judged
+            pp = {k2: inv[k1] for k1, k2 in (("retries", "retries"), ("until", "retry-until-success"), ("on_timeout", "retry-on-timeout"), ("on_error", "retry-on-error"), ("wait", "retry-wait-period")) if inv.get(k1) is not None}
+            pre = Scripted(loop, inv["script"] + ["ok"] * 64, [0])
+            saved = retry.delegate
+            retry.delegate = pre
+
+            async def before():
+                async with registered:
+                    return await registered({"default": object()}, dict(pp))
+
+            try:
+                loop.run_until_complete(before())
+            except BaseException:  # noqa
+                pass
+            finally:
+                retry.delegate = saved
         scripted = Scripted(loop, cfg["script"], cfg["durations"])
         original = retry.delegate
         retry.delegate = scripted
